@@ -28,6 +28,65 @@ pub struct Pre {
     pub change: u8,
     pub malformed: u8,
     pub reps: u8,
+    /// first evaluate a same-length sibling of the graph file (one constant deep in the node section
+    /// changed), then the graph itself — both as re-stored by zerokit's own serializer
+    #[serde(default)]
+    pub sibling_graph: bool,
+}
+
+/// (re-stored bundled graph, same-length sibling with one constant changed)
+fn restored_graphs() -> Result<&'static (Vec<u8>, Vec<u8>), String> {
+    static G: std::sync::OnceLock<Result<(Vec<u8>, Vec<u8>), String>> = std::sync::OnceLock::new();
+    G.get_or_init(|| {
+        use rln::circuit::iden3calc::graph::Node;
+        use rln::circuit::iden3calc::storage::{deserialize_witnesscalc_graph, serialize_witnesscalc_graph};
+        let (nodes, signals, info) = deserialize_witnesscalc_graph(std::io::Cursor::new(graph_bytes())).map_err(|e| e.to_string())?;
+        let mut g0 = vec![];
+        serialize_witnesscalc_graph(&mut g0, &nodes, &signals, &info).map_err(|e| e.to_string())?;
+        // a constant deep in the node list whose change alters the witness of a fixed valid assignment
+        let probe = Wit {
+            s: Fx::from_u64(5),
+            limit: Fx::from_u64(100),
+            mid: Fx::from_u64(3),
+            path: (0..20).map(|i| Fx::from_u64(1000 + i)).collect(),
+            bits: (0..20).map(|i| (i % 2) as u8).collect(),
+            x: Fx::from_u64(77),
+            e: Fx::from_u64(9),
+        };
+        let base = rln::circuit::calculate_rln_witness(named_inputs(&probe), &g0);
+        let mut g1 = vec![];
+        let mut k = 0;
+        let mut sib = nodes.clone();
+        for cand in (nodes.len() / 2..nodes.len()).rev() {
+            if !matches!(nodes[cand], Node::MontConstant(_) | Node::Constant(_)) {
+                continue;
+            }
+            sib = nodes.clone();
+            match &mut sib[cand] {
+                Node::MontConstant(f) => *f += ark_bn254::Fr::from(1u64),
+                Node::Constant(u) => *u = *u + ruint::aliases::U256::from(1u64),
+                _ => unreachable!(),
+            }
+            let mut bytes = vec![];
+            serialize_witnesscalc_graph(&mut bytes, &sib, &signals, &info).map_err(|e| e.to_string())?;
+            let w = rln::circuit::calculate_rln_witness(named_inputs(&probe), &bytes);
+            if w != base {
+                g1 = bytes;
+                k = cand;
+                break;
+            }
+        }
+        if g1.is_empty() {
+            return Err("altered copies of the graph file (one constant node changed, same length), each evaluated right after the graph itself, all returned the witness of the unaltered graph: the evaluator does not evaluate the graph it is given".into());
+        }
+        if std::env::var("VERIF_DEBUG").is_ok() {
+            let d = (0..g0.len().min(g1.len())).find(|i| g0[*i] != g1[*i]);
+            eprintln!("restored graphs: lengths {} / {}, first differing byte {:?}, node {k} of {}", g0.len(), g1.len(), d, sib.len());
+        }
+        Ok((g0, g1))
+    })
+    .as_ref()
+    .map_err(|e| e.clone())
 }
 
 /// values at 64-bit limb boundaries, 2^16±1, near p and p/2, uniform
@@ -86,7 +145,7 @@ impl Property for C05 {
     }
     fn rule(&self) -> String {
         "46-element input assignments (identitySecret, userMessageLimit, messageId, 20 path elements, 20 binary path indices, x, externalNullifier) with values at 64-bit limb boundaries 2^(64k)±{0,1,2}, 2^16±1, within 70000 of p and of p/2, boundary-weighted and uniform; messageId/limit ~70% inside the circuit's range plus its edges (difference exactly 2^16, 2^16+1, equal, messageId >= 2^16); \
-         the complete 5844-element vector of zerokit's graph evaluator is compared (sha256 of the decimal rendering, full vector on mismatch) with the vector circom's own generated calculator (rln.wasm under node) computes; assignments the reference rejects are only counted; evaluation is repeated and the named inputs are supplied in a generated order; 40% of the cases are preceded, on the same thread, by a valid evaluation of a related assignment (x and/or external nullifier changed) and 0..11 rejected evaluations carrying the case's own values plus one malformed signal — the result must not depend on that history. \
+         the complete 5844-element vector of zerokit's graph evaluator is compared (sha256 of the decimal rendering, full vector on mismatch) with the vector circom's own generated calculator (rln.wasm under node) computes; assignments the reference rejects are only counted; evaluation is repeated and the named inputs are supplied in a generated order; 40% of the cases are preceded, on the same thread, by a valid evaluation of a related assignment (x and/or external nullifier changed) and 0..11 rejected evaluations carrying the case's own values plus one malformed signal — the result must not depend on that history; a quarter of those cases evaluate a same-length sibling of the graph file (one constant deep in the node section changed) first and then the bundled graph as re-stored by zerokit's own serializer. \
          non-trivial = accepted by the reference and some input on a limb boundary or within 70000 of p or p/2; distinct by case content".into()
     }
     fn level(&self) -> &'static str {
@@ -108,7 +167,7 @@ impl Property for C05 {
     fn strategy(&self, _tier: Tier, _shard: usize) -> BoxedStrategy<Case> {
         let pre = prop_oneof![
             3 => Just(None),
-            2 => (1u8..4, 0u8..4, 0u8..12).prop_map(|(change, malformed, reps)| Some(Pre { change, malformed, reps })),
+            2 => (1u8..4, 0u8..4, 0u8..12, prop_oneof![3 => Just(false), 1 => Just(true)]).prop_map(|(change, malformed, reps, sibling_graph)| Some(Pre { change, malformed, reps, sibling_graph })),
         ];
         (c05_wit(), any::<u16>(), pre).prop_map(|(w, order, pre)| Case { w, order, pre }).boxed()
     }
@@ -185,6 +244,45 @@ impl Property for C05 {
                 }
             }
         }
+        // evaluations of different shard threads interleave freely (shared lock); the sibling-graph
+        // pair must be back to back process-wide, so it takes the lock exclusively — otherwise another
+        // thread's evaluation of the bundled graph would always slip between the two
+        static EXCL: std::sync::RwLock<()> = std::sync::RwLock::new(());
+        let exclusive = c.pre.map(|p| p.sibling_graph).unwrap_or(false);
+        let (_shared, _excl);
+        if exclusive {
+            _excl = Some(EXCL.write().unwrap_or_else(|e| e.into_inner()));
+            _shared = None;
+        } else {
+            _shared = Some(EXCL.read().unwrap_or_else(|e| e.into_inner()));
+            _excl = None;
+        }
+        // the graph file used for the compared evaluation: the bundled one, or (sibling_graph) the
+        // bundled graph re-stored by zerokit's serializer, evaluated right after a same-length sibling
+        let mut gbytes: &[u8] = graph_bytes();
+        if c.pre.map(|p| p.sibling_graph).unwrap_or(false) {
+            match restored_graphs() {
+                Ok((g0, g1)) => {
+                    o.label(if g0.len() == g1.len() { "sibling-graph-first/same-length" } else { "sibling-graph-first" });
+                    // first something unrelated (a one-node graph), so that nothing remembered from an
+                    // earlier evaluation of the bundled graph stands between the sibling and the target
+                    {
+                        use rln::circuit::iden3calc::graph::Node;
+                        let mut tiny = vec![];
+                        let info: rln::circuit::iden3calc::InputSignalsInfo = Default::default();
+                        let _ = rln::circuit::iden3calc::storage::serialize_witnesscalc_graph(&mut tiny, &vec![Node::MontConstant(ark_bn254::Fr::from(1u64))], &[0], &info);
+                        let _ = guarded(|| rln::circuit::iden3calc::calc_witness(Vec::<(String, Vec<ark_bn254::Fr>)>::new(), &tiny));
+                    }
+                    let _ = guarded(|| rln::circuit::calculate_rln_witness(named_inputs(&c.w), g1));
+                    // the target alternates between the re-stored graph and the bundled file itself
+                    gbytes = if c.order & 1 == 0 { g0 } else { graph_bytes() };
+                }
+                Err(e) => {
+                    vfail!(o, "{e}");
+                    return o;
+                }
+            }
+        }
         // zerokit's evaluator, inputs in a generated order, evaluated twice
         let mut named = named_inputs(&c.w);
         let rot = c.order as usize % named.len();
@@ -192,14 +290,14 @@ impl Property for C05 {
         if c.order & 0x8000 != 0 {
             named.reverse();
         }
-        let first = match guarded(|| rln::circuit::calculate_rln_witness(named.clone(), graph_bytes())) {
+        let first = match guarded(|| rln::circuit::calculate_rln_witness(named.clone(), gbytes)) {
             Ok(v) => v,
             Err(pn) => {
                 vfail!(o, "graph evaluator panicked on an assignment the reference accepts: {}", pn.0);
                 return o;
             }
         };
-        let second = rln::circuit::calculate_rln_witness(named_inputs(&c.w), graph_bytes());
+        let second = rln::circuit::calculate_rln_witness(named_inputs(&c.w), gbytes);
         if first != second {
             vfail!(o, "graph evaluation is not deterministic / depends on the order of the named inputs");
             return o;
